@@ -78,5 +78,58 @@ pub proof fn lemma_shl16(x: i64)
     lemma_small_mod((y * 0x1_0000) as nat, pow2(32));
 }
 
+/// `(x as u64) << 16` truncated to 32 bits, for ANY immediate x: the two's-complement encoding of x * 2^16
+pub proof fn lemma_shl16_any(x: i64)
+    ensures (((x as u64) << 16u64) as nat) % pow2(32) == enc(32, (x as int) * 0x1_0000),
+{
+    lemma_i64_as_u64(x);
+    lemma_pow2_32_64();
+    let y = x as u64;
+    let v = y << 16u64;
+    let z = y & 0xffffu64;
+    assert((v & 0xffff_ffffu64) == (z << 16u64)) by (bit_vector) requires v == y << 16u64, z == y & 0xffffu64;
+    assert(z == y % 0x1_0000u64) by (bit_vector) requires z == y & 0xffffu64;
+    assert((z << 16u64) == z * 0x1_0000u64) by (bit_vector) requires z < 0x1_0000u64;
+    assert((v & 0xffff_ffffu64) == v % 0x1_0000_0000u64) by (bit_vector);
+    // (x * 2^16) % 2^32 == (y * 2^16) % 2^32: y = x + 2^64 for negative x, and 2^64 * 2^16 is a multiple of 2^32
+    let yi = y as int;
+    if x < 0 {
+        assert(yi * 0x1_0000 == 0x1_0000_0000int * 0x1_0000_0000_0000int + (x as int) * 0x1_0000) by (nonlinear_arith)
+            requires yi == x as int + 0x1_0000_0000_0000_0000;
+        lemma_mod_multiples_vanish(0x1_0000_0000_0000int, (x as int) * 0x1_0000, 0x1_0000_0000int);
+    }
+    assert(((x as int) * 0x1_0000) % 0x1_0000_0000 == (yi * 0x1_0000) % 0x1_0000_0000);
+    vstd::arithmetic::div_mod::lemma_truncate_middle(yi, 0x1_0000, 0x1_0000);
+    assert((0x1_0000 * yi) % (0x1_0000int * 0x1_0000int) == 0x1_0000 * (yi % 0x1_0000));
+    assert(0x1_0000int * 0x1_0000int == 0x1_0000_0000int);
+    assert(yi * 0x1_0000 == 0x1_0000 * yi);
+}
+
+/// `x as u32 as u64` keeps the low 32 bits
+pub proof fn lemma_i64_as_u32(x: i64)
+    ensures ((x as u32 as u64) as nat) % pow2(32) == enc(32, x as int), (x as u32 as u64) < 0x1_0000_0000,
+{
+    lemma_imm32_i64(x);
+    lemma_pow2_32_64();
+    let y = x as u64;
+    let z = x as u32 as u64;
+    assert(z == y % 0x1_0000_0000u64) by (bit_vector) requires z == x as u32 as u64, y == x as u64;
+    lemma_small_mod(z as nat, pow2(32));
+}
+
+} // verus!
+}
+
+// ---- `format!("{}<literal>", s)` with a string argument: ASSUMED contract of std::fmt (Display of str writes its characters,
+// literal pieces are copied): the result is the concatenation
+pub mod c02_str {
+use vstd::prelude::*;
+verus! {
+#[verifier::external_body]
+pub fn format_suffix(s: &str, suffix: &str) -> (r: String)
+    ensures r@ == s@ + suffix@,
+{
+    format!("{}{}", s, suffix)
+}
 } // verus!
 }
